@@ -163,6 +163,15 @@ impl C16 {
             };
             files.push(PFile { rel, src, has_out, kind: kname.to_string() });
         }
+        // two directories with a same-named sibling each: lib/l.ucg imports its own ./defaults.ucg
+        // and is imported from lib/ (report) and from app/ (main), which has another defaults.ucg
+        if t.chance(1, 4) {
+            files.push(PFile { rel: "lib/defaults.ucg".into(), src: "let v = 1;\nlet name = \"svc\";\n".into(), has_out: false, kind: "library".into() });
+            files.push(PFile { rel: "lib/l.ucg".into(), src: "let defaults = import \"./defaults.ucg\";\nlet v = 2;\n".into(), has_out: false, kind: "library".into() });
+            files.push(PFile { rel: "app/defaults.ucg".into(), src: "let v = 3;\nlet region = \"eu\";\n".into(), has_out: false, kind: "library".into() });
+            files.push(PFile { rel: "lib/report.ucg".into(), src: "let l = import \"./l.ucg\";\nlet name = l.defaults.name;\nlet v = 4;\nout json {name = name};\n".into(), has_out: true, kind: "entry".into() });
+            files.push(PFile { rel: "app/main.ucg".into(), src: "let l = import \"../lib/l.ucg\";\nlet defaults = import \"./defaults.ucg\";\nlet name = l.defaults.name;\nlet v = 5;\nout json {name = name, region = defaults.region};\n".into(), has_out: true, kind: "entry".into() });
+        }
         // the unparsable files the lazy imports name, next to their importers (never built themselves:
         // the name does not end in .ucg for the recursive build... it does, so it is part of the project)
         for r in needs_broken {
